@@ -38,15 +38,15 @@ def plan(tier, seed):
     if tier == 'thorough':
         for k, o in enumerate(orders(n4, tier, seed, 24)):
             specs.append(dict(kind='n4', names=n4, order=o, sample=None,
-                              per=3, hashseed=k))
+                              per=10, hashseed=k))
     else:
         for k, o in enumerate(dict.fromkeys(orders(n4, tier, seed, 6))):
             specs.append(dict(kind='n4', names=n4, order=o, sample=6000,
                               per=6, sub=k, hashseed=k))
-    nh = 24 if tier == 'thorough' else 12
+    nh = 96 if tier == 'thorough' else 12
     for k in range(nh):
         specs.append(dict(kind='history', sub=k, n=3 + k % 4,
-                          steps=1500 if tier == 'thorough' else 600,
+                          steps=3000 if tier == 'thorough' else 600,
                           auto=(k % 3 == 1), hashseed=k))
     meta = dict(
         rule=RULE,
@@ -215,7 +215,7 @@ def vector(ctx, spec, A=None, N=None):
     A = A or AllFunctions(names, order)
     bdd, sp = A.bdd, A.sp
     _a, ab = _autoref(A)
-    N = N or (20000 if ctx.tier == 'quick' else 60000)
+    N = N or (20000 if ctx.tier == 'quick' else 300000)
     ts = A.tables
     for _ in range(N):
         t = rng.choice(ts)
